@@ -23,6 +23,7 @@ EXPLANATION = (
     ' (R7) record codecs agree field by field: each writer (header, const entry, symbol, dictionary, type entry, every instruction variant) writes its fields in the order and width the reader that rebuilds the record reads them, and the compile-side and load-side writers of one record agree.'
     " (R8) the compiler's align_up(len, align) is the smallest multiple of align >= len over the finite table of alignments and lengths, and the offset recorded in the constant entry is the padded offset."
     ' (R9) length prefixes measure the bytes they precede: a computed `write_uN(E)` directly followed by raw bytes B has E = len() of that byte sequence (UTF-8 length for strings).'
+    ' (R10) the tag tables of the file format (TypeTag, OpCode and every other repr(uN) enum with a from_uN decoder): reader arm `n => V` holds exactly when the discriminant of V - what every writer emits with `V as uN` - is n, and every variant has a reader arm, so decoding yields the type and opcode the compiler wrote.'
 )
 
 READ_SRC = re.compile(r"ReadBytesExt::read_u(8|16|32|64|128)$|ReadBytesExt::read_i(8|16|32|64)$|::from_le_bytes$|::from_le$|ReadBytesExt::read_f(32|64)$")
@@ -452,6 +453,9 @@ def run(F, rep, tier):
     run_r9(F, rep, crate)
     from rules import c07_sizes
     c07_sizes.run(F, rep, F.syn(crate))
+    # R10: the tag tables of the file format (TypeTag, OpCode, ...): reader arm n => V exactly when V's discriminant - what every writer emits - is n
+    from rules import c06_codec
+    c06_codec.discriminant_tables(F, rep, F.syn(crate), rid="C07-R10")
 
 
 # ---------------------------------------------------------------- R5: truncation guards vs. instruction sizes
